@@ -515,6 +515,62 @@ pub fn run_law(op: &str, args: &[String]) -> String {
                 .collect();
             format!("(L {} {} {} {} {} {})", shape(&res), names_of(&a), enc_name(&key), enc_name(&other), evals(&res, &smp), enc_bits(&a_over))
         }
+        "law.csv" => {
+            // a complete CSV file of n input columns (2^n records), without a header (`N`), with the
+            // header x_0.. spelled out (`H`) or with shuffled distinct names (`S`); rows in a shuffled
+            // order; the output is a recipe over the *columns*
+            let cols: Vec<String> = match kind {
+                "S" => {
+                    let mut v: Vec<String> = (0..n).map(|i| format!("c{}", (i * 7 + 3) % n)).collect();
+                    v.dedup();
+                    if v.iter().collect::<BTreeSet<_>>().len() != n {
+                        v = (0..n).map(|i| format!("c{}", n - 1 - i)).collect();
+                    }
+                    v
+                }
+                _ => (0..n).map(|i| format!("x_{}", i)).collect(),
+            };
+            let col_clauses: Clauses = recipe_over(&mut rng, &cols);
+            let value = |bits: &Vec<bool>| -> bool {
+                col_clauses.iter().any(|c| c.iter().all(|(v, p)| bits[cols.iter().position(|x| x == v).unwrap()] == *p))
+            };
+            let mut rows: Vec<usize> = (0..(1usize << n)).collect();
+            for i in (1..rows.len()).rev() {
+                let j = rng.below(i + 1);
+                rows.swap(i, j);
+            }
+            let mut text = String::new();
+            if kind != "N" {
+                text.push_str(&cols.join(","));
+                text.push_str(",out\n");
+            }
+            let mut records: Vec<(Vec<bool>, bool)> = vec![];
+            for r in &rows {
+                let bits: Vec<bool> = (0..n).map(|k| (r >> (n - 1 - k)) & 1 == 1).collect();
+                let out = value(&bits);
+                let cells: Vec<&str> = bits.iter().map(|b| if *b { "1" } else { "0" }).collect();
+                text.push_str(&cells.join(","));
+                text.push_str(if out { ",T\n" } else { ",F\n" });
+                records.push((bits, out));
+            }
+            match TruthTable::<String>::from_csv_string(&text) {
+                Err(e) => format!("(L err {:?})", e).replace(' ', "_").replace("(L_err_", "(L err "),
+                Ok(t) => {
+                    let mut obs = String::from("(");
+                    for k in 0..SAMPLES.min(records.len()) {
+                        let (bits, out) = &records[(k * 37 + 11) % records.len()];
+                        let a: BTreeMap<String, bool> = cols.iter().cloned().zip(bits.iter().cloned()).collect();
+                        if k > 0 {
+                            obs.push(' ');
+                        }
+                        obs.push_str(&format!("({} {})", enc_bool(*out), enc_bool(t.evaluate(&a))));
+                    }
+                    obs.push(')');
+                    let (ins, outs) = t.verif_raw();
+                    format!("(L {} {} {} {})", enc_names(ins.iter()), enc_names(cols.iter()), enc_bool(outs.len() == 1usize << ins.len()), obs)
+                }
+            }
+        }
         "law.nnf" | "law.cnf" | "law.dnf" => {
             // wide n-ary nodes: `kind` is the shape, `n` the arity
             let k = n;
@@ -536,6 +592,17 @@ pub fn run_law(op: &str, args: &[String]) -> String {
                     Expression::n_ary_or(&l)
                 }
                 "NA" => !Expression::n_ary_and(&lits),
+                // a complementary pair makes the wide node a contradiction / a tautology over k variables
+                "AC" => {
+                    let mut l = lits.clone();
+                    l.push(lit(k / 3, !pol[k / 3]));
+                    Expression::n_ary_and(&l)
+                }
+                "OT" => {
+                    let mut l = lits.clone();
+                    l.insert(k / 2, lit(k - 1, !pol[k - 1]));
+                    Expression::n_ary_or(&l)
+                }
                 _ => !Expression::n_ary_or(&lits),
             };
             let r = match op {
@@ -580,10 +647,20 @@ pub fn gen_laws(cx: &mut crate::gen::Ctx, prop: &str) {
         "C11" => &["law.nnf", "law.cnf", "law.dnf"],
         _ => &[],
     };
+    if prop == "C16" {
+        let sizes: &[usize] = if cx.thorough { &[10, 11, 12] } else { &[11] };
+        for kind in ["N", "H", "S"] {
+            for n in sizes {
+                let seed = cx.rng.next() % 100000;
+                cx.emit(prop, "law.csv", &[Arg::A(kind.to_string()), Arg::A(n.to_string()), Arg::A(seed.to_string())], true);
+            }
+        }
+        return;
+    }
     if prop == "C11" {
-        let arities: &[usize] = if cx.thorough { &[5, 8, 15, 16, 17, 18, 24, 31, 32, 33, 40, 47, 48, 49, 64, 65] } else { &[5, 16, 17, 18, 31, 32, 33, 40] };
+        let arities: &[usize] = if cx.thorough { &[5, 8, 12, 13, 14, 15, 16, 17, 18, 24, 31, 32, 33, 40, 47, 48, 49, 64, 65] } else { &[5, 12, 13, 16, 17, 18, 31, 32, 33, 40] };
         for op in ops {
-            for shape in ["A", "O", "AO", "OA", "NA", "NO"] {
+            for shape in ["A", "O", "AO", "OA", "NA", "NO", "AC", "OT"] {
                 for k in arities {
                     let seed = cx.rng.next() % 100000;
                     cx.emit(prop, op, &[Arg::A(shape.to_string()), Arg::A(k.to_string()), Arg::A(seed.to_string())], true);
